@@ -29,8 +29,9 @@ Theorem C14_lossy_params_listed : forall c k, In c lib_classes -> In k (lossy_pa
 Proof. exact lossy_params_listed. Qed.
 
 (* every tensor-allocation call in every file of the package chooses its dtype from an existing tensor / operator
-   (dtype=<expr>, the _like and new_ allocators), allocates index data, or is allow-listed with a reason (AllocPolicy.allow) - except
-   the three named ZeroLinearOperator sites (AllocPolicy.known_untyped: known findings, reproduced dynamically) *)
+   (dtype=<expr>, the _like and new_ allocators), allocates index data, or is allow-listed with a reason (AllocPolicy.allow).
+   AllocPolicy.known_untyped (listed findings) is EMPTY since the three ZeroLinearOperator sites were repaired, so the
+   hypothesis below holds for every site *)
 Theorem C14_alloc_sites_typed : forall s, In s sites -> is_known_untyped s = false -> site_ok s = true.
 Proof. exact alloc_sites_typed. Qed.
 
@@ -203,9 +204,12 @@ Proof. vm_compute. repeat split; try reflexivity; eexists; eexists; try split; r
 (* Matmul( Permutation(perm, inv_perm) [nominal float32], Dense(float64 tensor) ): the operator REPORTS float32 although
    its only floating tensor is float64.  All hypotheses of the conversion theorems hold; to(float32) must - and in the
    model does - cast the float64 tensor (fresh storage 3); the dtype-keyed shortcut would return it unchanged. *)
+(* (the keywords a constructor stores when called with defaults, read off the regenerated table) *)
+Definition dflt_nd (c : cls) : list (Z * value) :=
+  isort (flat_map (fun x => match x with (k, Some v, PKw) => [(k, v)] | _ => [] end) (cs_named (spec_of c))).
 Definition ex_perm_first : arg :=
   AOp CMatmul
-    [AOp CPermutation [ATensor (T 0 0 I64 false); ATensor (T 1 1 I64 false)] [] [(k_validate_args, VBool true)]
+    [AOp CPermutation [ATensor (T 0 0 I64 false); ATensor (T 1 1 I64 false)] [] (dflt_nd CPermutation)
          [(k_dtype, VDtype F32)];
      AOp CDense [ATensor (T 2 2 F64 true)] [] [] []] [] [] [].
 Example C14_nominal_first_argument_satisfiable :
